@@ -1,4 +1,5 @@
 import DEvo.Mut.Refs
+import DEvo.Generated.Tables
 import DEvo.Mut.Env
 
 /-! # C11 — renames and deletions keep every cross-reference consistent
@@ -312,7 +313,7 @@ theorem C11_cex_renameAppLabel_not_rewritten :
 /-- F12 witness 2: with a one-character label equal to the first character of the *model* name
 the reference is corrupted (`B.Book` style: here label `B`, model `Book` → `lib.o`). -/
 theorem C11_cex_renameAppLabel_corrupts :
-    renameLabelRef false "B" "lib" "B.Book" = .ok "lib.o" := by decide
+    renameLabelRef false "B" "lib" ["Book"] "B.Book" = .ok "lib.o" := by decide
 
 /-- the repaired rewrite (`fixed = true`) maps the same reference to the renamed app -/
 theorem C11_renameAppLabel_fixed_witness :
@@ -323,11 +324,16 @@ theorem C11_renameAppLabel_fixed_witness :
 
 /-- repaired rewrite, every reference: a reference into the old label is moved to the new
 label with the model name intact, any other reference is untouched -/
-theorem C11_renameLabelRef_fixed (old new lbl mdl : String) (rel : String)
+theorem C11_renameLabelRef_fixed (old new lbl mdl : String) (moved : List String) (rel : String)
     (h : splitDot rel = some (lbl, mdl)) :
-    renameLabelRef true old new rel = .ok (if lbl == old then new ++ "." ++ mdl else rel) := by
+    renameLabelRef true old new moved rel
+      = .ok (if lbl == old && moved.contains mdl then new ++ "." ++ mdl else rel) := by
   unfold renameLabelRef
   simp only [h, if_true]
   split <;> rfl
+
+/-- the reference rewrite of `RenameAppLabel.simulate` in the current source is the repaired one
+(regenerated on every run; finding F12 repaired) -/
+theorem C11_source_renameAppLabel_fixed : DEvo.Generated.renameAppLabelFixed = true := by decide
 
 end DEvo.Props.C11
